@@ -18,8 +18,7 @@ pub fn meta() -> Meta {
     Meta {
         rule: "histories of announcements: 1..5 peers with generated instance descriptions (valid single-label names, 0..5 IPv4/IPv6 addresses, 0..4 ports, attribute \
 maps of 0..6 entries with absent/empty/non-empty values) are converted with the public InstanceInformation::into_records, assembled into response packets as announce() does, \
-serialised with build_bytes_vec_compressed, parsed, ingested through the hook around the real add_response_to_resources (sync with and without on_discovery channel, and the tokio \
-variant), read back with get_domain_resources(service, cached()) and from_records. Oracle: the discovered set equals the announced set minus the discoverer's own instance; every \
+serialised with build_bytes_vec_compressed, parsed, ingested through the hook around the real add_response_to_resources (sync and tokio, each with and without on_discovery channel), read back with get_domain_resources(service, cached()) and from_records. Oracle: the discovered set equals the announced set minus the discoverer's own instance; every \
 channel value equals the instance announced by that packet; foreign traffic (own instance, records owned by the service name, sibling service, concatenation-colliding names, parent \
 domain, unrelated names) is never reported. A sampled live family starts pairs of real ServiceDiscovery instances (sync/sync and sync/tokio) on loopback multicast and requires \
 each to report exactly the other (real announce(), receive loops, get_known_services()); a passive witness socket on the mDNS group counts the response datagrams of each peer, and a listener \
@@ -144,7 +143,8 @@ pub fn history(ctx: &mut Ctx, idx: u64) {
     let service = Name::new(service_s).unwrap().into_owned();
     let own_s = full_name("self", service_s);
     let own = Name::new(&own_s).unwrap().into_owned();
-    let mode = idx % 3; // 0: sync without channel, 1: sync with channel, 2: tokio with channel
+    let mode = idx % 4; // 0: sync without channel, 1: sync with channel, 2: tokio with channel, 3: tokio without channel
+    let no_channel = mode == 0 || mode == 3;
     let npeers = r.usize(1, 5);
     let inst_names = ["p1", "printer", "office-printer", "_underscore", "UPPER", "a", "x1y2"];
     let mut peers: Vec<Desc> = Vec::new();
@@ -166,7 +166,7 @@ pub fn history(ctx: &mut Ctx, idx: u64) {
     let mut chan = if mode == 1 { Some(tx) } else { None };
     let (atx, mut arx) = tokio::sync::mpsc::channel::<InstanceInformation>(64);
     let mut achan = if mode == 2 { Some(atx) } else { None };
-    let rt = if mode == 2 { Some(tokio::runtime::Builder::new_current_thread().build().unwrap()) } else { None };
+    let rt = if mode >= 2 { Some(tokio::runtime::Builder::new_current_thread().build().unwrap()) } else { None };
     let mut log: Vec<String> = Vec::new();
     let mut announced: Vec<usize> = Vec::new();
     let mut expected_channel: Vec<InstanceInformation> = Vec::new();
@@ -174,12 +174,12 @@ pub fn history(ctx: &mut Ctx, idx: u64) {
     let ttl = 4500;
     let case_log = |log: &Vec<String>| json!({"family": "history", "idx": idx, "service": service_s, "mode": mode, "steps": log});
     for step in 0..steps {
-        let kind = if step < npeers { 0 } else { r.below(9) };
+        let kind = if step < npeers { 0 } else { r.below(10) };
         let mut ingest = |bytes: &[u8], store: &mut ResourceRecordManager<'static>, ctx: &mut Ctx, log: &Vec<String>| {
             let res = monitor::guard(|| {
                 let pk = Packet::parse(bytes).map_err(|e| format!("{:?}", e))?;
                 match mode {
-                    2 => rt.as_ref().unwrap().block_on(simple_mdns::verif_async::add_response_to_resources(pk, &service, &own, store, &mut achan)),
+                    2 | 3 => rt.as_ref().unwrap().block_on(simple_mdns::verif_async::add_response_to_resources(pk, &service, &own, store, &mut achan)),
                     _ => add_response_to_resources(pk, &service, &own, store, &mut chan),
                 }
                 Ok::<(), String>(())
@@ -205,7 +205,7 @@ pub fn history(ctx: &mut Ctx, idx: u64) {
                     }
                 };
                 // sometimes the first thing seen of the peer is its goodbye (TTL 0), straight before the announcement
-                if mode == 0 && r.chance(1, 5) {
+                if no_channel && r.chance(1, 5) {
                     if let Ok(v) = peers[k].info(r.next()).into_records(&fname, 0) {
                         if let Ok(b) = announce_bytes(v.into_iter().map(|x| x.into_owned()).collect(), &mut r) {
                             log.push(format!("peer {} says goodbye (TTL 0)", k));
@@ -214,7 +214,15 @@ pub fn history(ctx: &mut Ctx, idx: u64) {
                         }
                     }
                 }
-                log.push(format!("peer {} announces {:?}", k, peers[k]));
+                // sometimes the announcement shares its packet with records of the discoverer's own instance
+                let mut recs = recs;
+                let mixed = no_channel && r.chance(1, 6);
+                if mixed {
+                    let mine: Vec<ResourceRecord<'static>> = own_desc.info(r.next()).into_records(&own, ttl).unwrap().into_iter().map(|x| x.into_owned()).collect();
+                    recs.extend(mine);
+                    ctx.count("announcements_sharing_a_packet_with_own_records");
+                }
+                log.push(format!("peer {} announces {:?}{}", k, peers[k], if mixed { " (in one packet with records of the own instance)" } else { "" }));
                 match announce_bytes(recs, &mut r) {
                     Ok(b) => {
                         ingest(&b, &mut store, ctx, &log);
@@ -267,10 +275,30 @@ pub fn history(ctx: &mut Ctx, idx: u64) {
                     ingest(&b, &mut store, ctx, &log);
                 }
             }
+            9 => {
+                // one packet carrying records of the discoverer's own instance next to a peer's (an aggregating responder
+                // or a proxy sends such packets): the own records are ignored, the peer is discovered
+                if no_channel {
+                    let k = r.usize(0, npeers - 1);
+                    let fname = Name::new(&full_name(&peers[k].name, service_s)).unwrap().into_owned();
+                    let mut recs: Vec<ResourceRecord<'static>> = Vec::new();
+                    let mine: Vec<_> = own_desc.info(r.next()).into_records(&own, ttl).unwrap().into_iter().map(|x| x.into_owned()).collect();
+                    let theirs: Vec<_> = peers[k].info(r.next()).into_records(&fname, ttl).unwrap().into_iter().map(|x| x.into_owned()).collect();
+                    if r.bool() { recs.extend(mine); recs.extend(theirs); } else { recs.extend(theirs); recs.extend(mine); }
+                    if let Ok(b) = announce_bytes(recs, &mut r) {
+                        log.push(format!("one packet carrying the own instance and peer {}: {:?}", k, peers[k]));
+                        ctx.count("packets_mixing_own_and_peer_records");
+                        ingest(&b, &mut store, ctx, &log);
+                        if !announced.contains(&k) {
+                            announced.push(k);
+                        }
+                    }
+                }
+            }
             8 => {
                 // a peer says goodbye (the same records with TTL 0) and then advertises again: it is discovered again
-                // (what the channel delivers for a goodbye is not defined by the property: channel-less mode only)
-                if mode == 0 {
+                // (what the channel delivers for a goodbye is not defined by the property: channel-less modes only)
+                if no_channel {
                     let k = r.usize(0, npeers - 1);
                     let fname = Name::new(&full_name(&peers[k].name, service_s)).unwrap().into_owned();
                     let mut ok = true;
@@ -295,7 +323,7 @@ pub fn history(ctx: &mut Ctx, idx: u64) {
             }
             _ => {
                 // one packet carrying two peers' records (channel expectation is not defined for it: skipped)
-                if npeers >= 2 && mode == 0 {
+                if npeers >= 2 && no_channel {
                     let mut recs = Vec::new();
                     for k in [0usize, 1] {
                         let fname = Name::new(&full_name(&peers[k].name, service_s)).unwrap().into_owned();
@@ -354,7 +382,7 @@ pub fn history(ctx: &mut Ctx, idx: u64) {
     }
     ctx.add("instances_discovered_faithfully", discovered.len() as u64);
     // channel values
-    if mode != 0 {
+    if mode == 1 || mode == 2 {
         let mut got: Vec<InstanceInformation> = Vec::new();
         if mode == 1 {
             drop(chan);
